@@ -405,7 +405,9 @@ class Queue(Greenlet):
             if isinstance(results, collections.abc.Mapping):
                 self._handle_partial_relay(id, envelope, attempts, results)
             elif isinstance(results, collections.abc.Sequence):
-                results = dict(zip(envelope.recipients, results))
+                # Not dict(): ``slimta.queue.dict`` shadows the builtin here.
+                results = {rcpt: res for rcpt, res
+                           in zip(envelope.recipients, results)}
                 self._handle_partial_relay(id, envelope, attempts, results)
             else:
                 self._remove(id)
